@@ -723,7 +723,16 @@ class Session:
 
     def __init__(self, ctx, prop_oracle=None):
         self.ctx = ctx
-        self.exe = ctx.harness("world_driver")
+        self.no_internals = False
+        try:
+            self.exe = ctx.harness("world_driver")
+        except vlib.BuildError as e:
+            # a renamed private member (the friend accessor no longer compiles) is not a property violation: drop the
+            # internal observations (id table, row positions) from both streams and keep the public tie + the oracle
+            vlib.log("[world] harness with internals does not compile (%s); retrying with -DVERIF_NO_INTERNALS" % e.what)
+            self.exe = ctx.harness("world_driver", extra_defs=("-DVERIF_NO_INTERNALS",))
+            self.no_internals = True
+            ctx.cov(internals_dropped=True)
         self.drv = ctx.driver()
         self.n = 0
         self.nontrivial = set()
@@ -765,6 +774,9 @@ class Session:
             msg = self.prop_oracle(ops, impl, model)
             if msg:
                 return ("oracle", msg)
+        if self.no_internals:
+            strip = lambda ls: [re.sub(r" pos=\S+", "", l) for l in ls if not l.startswith("T ")]
+            impl, model = strip(impl), strip(model)
         d = first_diff(impl, model)
         if d:
             return ("tie", "output line %d: impl `%s` model `%s`" % (d[0], d[1][:300], d[2][:300]))
